@@ -22,6 +22,7 @@ _RV_FULL.update({m: {"shims": ("struct",)} for m in ("xdsl.transforms.canonicali
                                                      "xdsl.backend.riscv.lowering.utils", "xdsl.dialects.riscv.assembly")})
 
 CHECKS = {
+    "C19": {"module": "vx.checks.c19", "instrument": {"full": _RV_FULL}, "maxtasksperchild": 10},
     "C22": {"module": "vx.checks.c22", "instrument": {"full": _RV_FULL}, "maxtasksperchild": 6},
     "C28": {"module": "vx.checks.c28", "instrument": {}, "maxtasksperchild": 10},
     "C16": {"module": "vx.checks.c16", "instrument": {"full": _LOOP_FULL}, "maxtasksperchild": 4},
